@@ -4,6 +4,8 @@ Twin run: an untrimmed model U and a trimmed model T (and T2 = T saved and reloa
 rounds of assignments of ALL inputs; every output is compared after every round (and before the
 first one: frozen cells keep the value they had at trim time).
 """
+import itertools
+
 from vp import hist, wb, wbgen
 
 PROP = 'C08'
@@ -241,11 +243,15 @@ def iterative_trim(ctx):
     feeds the output.  Frozen at trim time it must hold its converged value (within the tolerance)."""
     for k, (a, b, c) in enumerate(((5, 0.25, 0.5), (1, 0.5, 0.5), (-3, 0.2, -0.7), (10, 0.1, 0.9))):
         x1 = a / (1 - b * c)            # B1 = a + b*B2, B2 = c*B1
-        for reload_fmt in (None, 'yml', 'json', 'pkl'):
+        for reload_fmt, via in itertools.product((None, 'yml', 'json', 'pkl'), ('direct', 'range', 'name')):
+            # the block refers to itself directly, through a range (which pycel evaluates once while it builds
+            # the graph, so its cells already hold a first-sweep value at trim time), or through a defined name
+            b2 = {'direct': 'B2', 'range': 'SUM(B2:B3)', 'name': 'feedback'}[via]
             spec = {'sheets': [['Sheet1', {'A1': 2, 'C1': '=A1*Rates!B1', 'D1': '=C1+Rates!B2'}],
-                               ['Rates', {'B1': f'={a}+{b}*B2', 'B2': f'={c}*B1'}]],
-                    'names': {}, 'arrays': [], 'calc': {'iterate': True, 'count': 200, 'delta': 1e-9}}
-            case = {'kind': 'iterative-trim', 'k': k, 'reload': reload_fmt}
+                               ['Rates', {'B1': f'={a}+{b}*{b2}', 'B2': f'={c}*B1', 'B3': 0}]],
+                    'names': {'feedback': 'Rates!$B$2'} if via == 'name' else {}, 'arrays': [],
+                    'calc': {'iterate': True, 'count': 200, 'delta': 1e-9}}
+            case = {'kind': 'iterative-trim', 'k': k, 'reload': reload_fmt, 'via': via}
             T = wb.compile_mem(spec)
             try:
                 T.trim_graph(['Sheet1!A1'], ['Sheet1!C1', 'Sheet1!D1'])
@@ -258,7 +264,8 @@ def iterative_trim(ctx):
                 continue
             ctx.count('trims')
             ctx.count('directed:iterative_trim')
-            ctx.case(('iterative-trim', k, reload_fmt))
+            ctx.count('iterative_trim_via:' + via)
+            ctx.case(('iterative-trim', k, reload_fmt, via))
             for v in (2, 7, -1.5, 0):
                 T.set_value('Sheet1!A1', v)
                 got_c, got_d = wb.outcome(T.evaluate, 'Sheet1!C1'), wb.outcome(T.evaluate, 'Sheet1!D1')
@@ -267,9 +274,9 @@ def iterative_trim(ctx):
                 ok = all(o[0] == 'v' and isinstance(o[1], (int, float)) and abs(o[1] - w_) <= 1e-6 * max(1, abs(w_))
                          for o, w_ in ((got_c, want_c), (got_d, want_d)))
                 if not ok:
-                    ctx.violation('iterative/frozen-circular-block-not-converged',
+                    ctx.violation(f'iterative/frozen-circular-block-not-converged/{via}',
                                   f'A1={v}: trimmed model gives C1={got_c!r}, D1={got_d!r}; the circular block '
-                                  f'Rates!B1={a}+{b}*B2, B2={c}*B1 converges to B1={x1!r}, so C1={want_c!r}, '
+                                  f'Rates!B1={a}+{b}*{b2}, B2={c}*B1 converges to B1={x1!r}, so C1={want_c!r}, '
                                   f'D1={want_d!r} [reload={reload_fmt}]', case)
                     break
 
